@@ -96,6 +96,10 @@ void yield_hook(int point) {
     return;  // session-level notifications on the client thread are not cut points of the model
   if (role == 1 && point == RIME_VERIF_SCHEDULE_ENTER)
     return;  // ScheduleTask called by the handler on the worker thread: part of the invocation step
+  if (point == RIME_VERIF_CLEANUPALL_ENTER) {
+    log_event("cleanup");   // an event, not a cut point: where RimeSyncUserData destroys the sessions relative to its own spawn
+    return;
+  }
   if (point == RIME_VERIF_STARTWORK_SPAWNED)
     log_event("spawn");
   if (point == RIME_VERIF_GETSESSION_ACCEPTED || point == RIME_VERIF_CREATESESSION_ACCEPTED)
